@@ -907,6 +907,17 @@ func (ev *gemEval) fold(x ast.Expr, e *env) []Part {
 			}
 		case "strconv.Itoa":
 			return []Part{{Kind: PInt, Src: types.ExprString(x.Args[0])}}
+		case "strconv.FormatInt", "strconv.FormatUint":
+			if tv, ok := info.Types[x.Args[1]]; ok && tv.Value != nil && tv.Value.String() == "10" {
+				arg := ast.Unparen(x.Args[0])
+				// FormatInt(int64(i), 10) is Itoa(i)
+				if conv, ok := arg.(*ast.CallExpr); ok && len(conv.Args) == 1 {
+					if ctv, ok := info.Types[conv.Fun]; ok && ctv.IsType() {
+						arg = conv.Args[0]
+					}
+				}
+				return []Part{{Kind: PInt, Src: types.ExprString(arg)}}
+			}
 		case "strings.Repeat":
 			if tv, ok := info.Types[x.Args[0]]; ok && tv.Value != nil && constant.StringVal(tv.Value) == "\t" {
 				return []Part{{Kind: PIndent, Src: types.ExprString(x.Args[1])}}
